@@ -2,7 +2,7 @@
    Property theorems only, about the model Gas/Estimator.v of
    /repo/eth/gasestimator/gasestimator.go (Estimate, execute); the EVM is the
    arbitrary oracle [exec] (what execute returns at a gas limit) and the
-   error-ratio test of l.176 is the arbitrary predicate [er_exit], so every
+   error-ratio test of l.177 is the arbitrary predicate [er_exit], so every
    theorem holds for all programs, states and float semantics.
    [succeeds exec g] = "the call executes successfully with gas limit g". *)
 From GV Require Import Lib.Tactics Gas.Estimator Gas.EstimatorProofs.
@@ -13,13 +13,13 @@ Local Open Scope N_scope.
    (hi only ever moves to a gas limit at which a probe succeeded.) *)
 Theorem C37_estimate_succeeds : forall exec er_exit p r,
   fst (estimate exec er_exit p) = EstOk r -> succeeds exec r = true.
-Proof. exact (fun exec er p r => estimate_succeeds exec er search_fuel p r). Qed.
+Proof. exact (fun exec er p r => estimate_succeeds exec er current search_fuel p r). Qed.
 Print Assumptions C37_estimate_succeeds.
 
 (* If the call succeeds at the allowance cap hi0 (and no probe hits a consensus error
    unrelated to gas), Estimate does answer, and the answer succeeds.  Guards
    ([term_guard]): hi0 < 2^63, the first execution used >= 2 gas and
-   maxUsed + 2300 < 2^58 (no uint64 wrap in l.154). *)
+   maxUsed + 2300 < 2^58 (no uint64 wrap in l.155). *)
 Theorem C37_estimate_complete : forall exec er_exit p hi,
   initial_hi p = inr hi -> term_guard exec hi -> succeeds exec hi = true ->
   (forall g c, exec g <> ExBail c) ->
@@ -40,49 +40,66 @@ Theorem C37_initial_hi_caps : forall p hi,
 Proof. exact initial_hi_caps. Qed.
 Print Assumptions C37_initial_hi_caps.
 
-(* The estimate is at most the initial hi, or it is the plain-transfer shortcut's 21000. *)
+(* The estimate is at most the initial hi (the plain-transfer shortcut now compares its
+   21000 with hi). *)
 Theorem C37_estimate_le_hi : forall exec er_exit p hi r,
   wf_params p -> initial_hi p = inr hi -> fst (estimate exec er_exit p) = EstOk r ->
-  r <= hi \/ (plain_transfer p = true /\ r = TxGas /\ succeeds exec TxGas = true).
-Proof. exact (fun exec er p hi r => estimate_le_hi exec er search_fuel p hi r). Qed.
+  r <= hi.
+Proof. exact (fun exec er p hi r => estimate_le_hi exec er current search_fuel p hi r eq_refl). Qed.
 Print Assumptions C37_estimate_le_hi.
 
-(* Hence, when 21000 <= hi0 for plain transfers, the estimate never exceeds the
-   caller's funds, the gas cap or the per-transaction cap. *)
+(* Hence the estimate never exceeds the caller's funds, the gas cap, the per-transaction
+   cap or the requested/header limit — no guard. *)
 Theorem C37_estimate_le_caps : forall exec er_exit p hi r,
   wf_params p -> initial_hi p = inr hi ->
-  (plain_transfer p = true -> TxGas <= hi) ->
   fst (estimate exec er_exit p) = EstOk r ->
   r <= hi /\
   (p_gas_cap p <> 0 -> r <= p_gas_cap p) /\
   (p_is_osaka p = true -> p_is_amsterdam p = false -> r <= MaxTxGas) /\
   (fee_cap p <> 0 -> funds_needed p r <= p_balance p) /\
   r <= N.max (p_header_gas p) (p_call_gas p).
-Proof. exact (fun exec er p hi r => estimate_le_caps exec er search_fuel p hi r). Qed.
+Proof. exact (fun exec er p hi r => estimate_le_caps exec er current search_fuel p hi r eq_refl). Qed.
 Print Assumptions C37_estimate_le_caps.
 
-(* FULL STATEMENT "the estimate never exceeds the gas cap" (no guard) is FALSE of the
-   faithful model: gasCap = 10000, plain transfer -> 21000.  Witness replayed on
-   /repo by the harness (tag shortcut_above_cap). *)
-Theorem C37_estimate_le_gascap_refuted :
+(* About the FORMER code only (legacy flag lg_ignore_hi = the shortcut before /repo commit
+   10bd791e6e): "estimate <= gasCap" was false — gasCap = 10000, plain transfer -> 21000;
+   the current model answers "gas required exceeds allowance (10000)" on the same input.
+   Finding repaired in /repo; witness kept in corpus/C37. *)
+Theorem C37_legacy_estimate_le_gascap_refuted :
   exists exec p r, wf_params p /\
-    fst (estimate exec (fun _ _ => false) p) = EstOk r /\
-    p_gas_cap p <> 0 /\ p_gas_cap p < r /\ initial_hi p = inr (p_gas_cap p).
-Proof. exact estimate_le_gascap_refuted. Qed.
-Print Assumptions C37_estimate_le_gascap_refuted.
+    fst (estimate_fuel exec (fun _ _ => false)
+           {| lg_ignore_hi := true; lg_after_amsterdam := false |} search_fuel p) = EstOk r /\
+    p_gas_cap p <> 0 /\ p_gas_cap p < r /\ initial_hi p = inr (p_gas_cap p) /\
+    fst (estimate exec (fun _ _ => false) p) = EstErrAllowance 10000.
+Proof. exact legacy_estimate_le_gascap_refuted. Qed.
+Print Assumptions C37_legacy_estimate_le_gascap_refuted.
 
-(* Minimality.  Error ratio 0 (no early exit), a gas-monotone program, nothing below the
-   intrinsic 21000 succeeds (only used for the shortcut), and — because l.149 sets
+(* About the FORMER code only (legacy flag lg_after_amsterdam = the shortcut before /repo
+   commit 2d92053e8d): under Amsterdam rules a plain transfer costs less than 21000 and the
+   shortcut's 21000 was not minimal; the current model finds the minimum on the same input.
+   Finding repaired in /repo; witness kept in corpus/C37. *)
+Theorem C37_legacy_estimate_minimal_amsterdam_refuted :
+  exists exec p r, wf_params p /\ monotone exec /\
+    fst (estimate_fuel exec (fun _ _ => false)
+           {| lg_ignore_hi := false; lg_after_amsterdam := true |} search_fuel p) = EstOk r /\
+    succeeds exec (r - 1) = true /\
+    fst (estimate exec (fun _ _ => false) p) = EstOk 15000.
+Proof. exact legacy_estimate_minimal_amsterdam_refuted. Qed.
+Print Assumptions C37_legacy_estimate_minimal_amsterdam_refuted.
+
+(* Minimality.  Error ratio 0 (no early exit), a gas-monotone program, before Amsterdam
+   nothing below the intrinsic 21000 succeeds (only used for the shortcut, which is not
+   taken under Amsterdam), and — because l.150 sets
    lo := used-1 WITHOUT probing it — nothing below the gas used at hi0 succeeds:
    then every gas limit below the estimate fails (in particular r-1). *)
 Theorem C37_estimate_minimal : forall exec er_exit p hi r,
   (forall h l, er_exit h l = false) -> monotone exec ->
-  (forall g, g < TxGas -> succeeds exec g = false) ->
+  (p_is_amsterdam p = false -> forall g, g < TxGas -> succeeds exec g = false) ->
   wf_params p -> initial_hi p = inr hi ->
   (forall u m, exec hi = ExOk u m -> 1 <= u /\ forall g, g < u -> succeeds exec g = false) ->
   fst (estimate exec er_exit p) = EstOk r ->
   forall g, g < r -> succeeds exec g = false.
-Proof. exact (fun exec er p hi r => estimate_minimal exec er search_fuel p hi r). Qed.
+Proof. exact (fun exec er p hi r => estimate_minimal exec er current search_fuel p hi r eq_refl). Qed.
 Print Assumptions C37_estimate_minimal.
 
 (* Termination: under the guards the 130-iteration fuel is never exhausted (the loop
@@ -94,14 +111,14 @@ Proof. exact estimate_terminates. Qed.
 Print Assumptions C37_estimate_terminates.
 
 (* Without the guard hi0 < 2^63 the logarithmic bound is FALSE of the faithful model:
-   l.181 [mid > lo*2] wraps in uint64, the clamp moves lo down and the search
+   l.182 [mid > lo*2] wraps in uint64, the clamp moves lo down and the search
    oscillates; with requested gas 2^64-1 and a monotone program that needs it all,
    1000 iterations do not finish (about 2^62 would). *)
 Theorem C37_estimate_terminates_unguarded_refuted :
   exists exec p, wf_params p /\ monotone exec /\
     (forall u m, exec (p_call_gas p) = ExOk u m -> 2 <= u /\ u < W64 /\ m + CallStipend < 2 ^ 58) /\
     initial_hi p = inr (p_call_gas p) /\
-    fst (estimate_fuel exec (fun _ _ => false) 1000 p) = EstOutOfFuel.
+    fst (estimate_fuel exec (fun _ _ => false) current 1000 p) = EstOutOfFuel.
 Proof. exact estimate_terminates_unguarded_refuted. Qed.
 Print Assumptions C37_estimate_terminates_unguarded_refuted.
 
